@@ -62,7 +62,7 @@ class V1Parser:
             invalid PROXY header.
         """
         self.buffer += data
-        if len(self.buffer) > 107 and self.NEWLINE not in self.buffer:
+        if len(self.buffer) > 107 and self.NEWLINE not in self.buffer[:107]:
             raise InvalidProxyHeader()
         lines = (self.buffer).split(self.NEWLINE, 1)
         if not len(lines) > 1:
